@@ -499,6 +499,8 @@ def is_concrete(v) -> bool:
         return False
     if isinstance(v, BStr):
         return False
+    if type(v).__module__.startswith("engine."):
+        return False  # any other interpreter-internal object (symbolic set, closure, ...) is not a python value
     if isinstance(v, (list, tuple, set, frozenset)):
         return all(is_concrete(x) for x in v)
     if isinstance(v, dict):
@@ -791,6 +793,16 @@ def eq_term(ctx: Ctx, a, b):
         if not isinstance(d, dict):
             return False
         return eq_term(ctx, m, dict_to_smap(ctx, d, m.kty, m.vty))
+    if type(a).__name__ == "_SymSet" or type(b).__name__ == "_SymSet":
+        ia = list(a.items) if type(a).__name__ == "_SymSet" else (list(a) if isinstance(a, (set, frozenset)) else None)
+        ib = list(b.items) if type(b).__name__ == "_SymSet" else (list(b) if isinstance(b, (set, frozenset)) else None)
+        if ia is None or ib is None:
+            return False
+        parts = [contains_term(ctx, x, ib) for x in ia] + [contains_term(ctx, y, ia) for y in ib]
+        if any(p is False for p in parts):
+            return False
+        parts = [p for p in parts if p is not True]
+        return True if not parts else z3.And(*parts)
     if isinstance(a, Rec) or isinstance(b, Rec):
         if isinstance(a, Rec) and isinstance(b, Rec):
             if a is b:
